@@ -64,6 +64,7 @@ pub fn infos() -> Vec<Option<Value>> {
         None,
         Some(json!({"author":"a","n":1})),
         Some(json!({"author":"b","nested":{"k":[1,2.5,"\"q\\"]}})),
+        Some(json!({})),
     ]
 }
 
@@ -348,6 +349,72 @@ pub fn many_commits_scenario(name: &str, depth: usize, extra: &[Op]) -> Scenario
         nrep: 2,
         menu: menu(docs),
         prologue,
+        alphabet,
+        key_opts: KeyOpts::default(),
+        max_depth: depth,
+        track: false,
+        order: None,
+    }
+}
+
+/// Three replicas edited the same element and the same array differently; replica 0 has received both
+/// other branches: objects with THREE live leaves.
+pub fn three_leaves_scenario(name: &str, depth: usize, extra: &[Op]) -> Scenario {
+    let xv = |v: u32| json!({"_id":"x","v":v});
+    let docs = vec![
+        json!({"l♭":[x(), y()]}),
+        json!({"l♭":[xv(2), y(), z()]}),
+        json!({"l♭":[y(), xv(3)]}),
+        json!({"l♭":[xv(4)]}),
+        json!({"l♭":[xv(5), y()]}),
+    ];
+    let mut alphabet = vec![Op::Commit(0, 1), Op::Sync(1, 0), Op::Sync(2, 0), Op::Sync(0, 1), Op::Upd(0, 4), Op::Reopen(1)];
+    for j in 0..2 {
+        for k in 0..3 {
+            alphabet.push(Op::Resolve(0, j, k));
+        }
+    }
+    alphabet.extend_from_slice(extra);
+    Scenario {
+        name: name.to_string(),
+        nrep: 3,
+        menu: menu(docs),
+        prologue: vec![
+            Op::Upd(0, 0), Op::Commit(0, 0), Op::Sync(1, 0), Op::Sync(2, 0),
+            Op::Upd(0, 1), Op::Commit(0, 0), Op::Upd(1, 2), Op::Commit(1, 0), Op::Upd(2, 3), Op::Commit(2, 0),
+            Op::Sync(0, 1), Op::Sync(0, 2),
+        ],
+        alphabet,
+        key_opts: KeyOpts::default(),
+        max_depth: depth,
+        track: false,
+        order: None,
+    }
+}
+
+/// Two branches that each made a private edit (own block) and then the IDENTICAL edit of x from the
+/// same revision (own block): two different blocks carrying exactly the same revision.
+pub fn same_edit_scenario(name: &str, depth: usize, extra: &[Op]) -> Scenario {
+    let e = |id: &str, v: u32| json!({"_id": id, "v": v});
+    let docs = vec![
+        json!({"l♭":[e("x",1), e("y",1), e("z",1)]}),
+        json!({"l♭":[e("x",1), e("y",2), e("z",1)]}),
+        json!({"l♭":[e("x",4), e("y",2), e("z",1)]}),
+        json!({"l♭":[e("x",1), e("y",1), e("z",2)]}),
+        json!({"l♭":[e("x",4), e("y",1), e("z",2)]}),
+        json!({"l♭":[e("x",4), e("y",2), e("z",2), e("w",1)]}),
+    ];
+    let mut alphabet = vec![Op::Sync(0, 1), Op::Sync(1, 0), Op::Upd(0, 5), Op::Commit(0, 0), Op::Reload(0), Op::Reopen(1)];
+    alphabet.extend_from_slice(extra);
+    Scenario {
+        name: name.to_string(),
+        nrep: 2,
+        menu: menu(docs),
+        prologue: vec![
+            Op::Upd(0, 0), Op::Commit(0, 0), Op::Sync(1, 0),
+            Op::Upd(0, 1), Op::Commit(0, 0), Op::Upd(0, 2), Op::Commit(0, 1),
+            Op::Upd(1, 3), Op::Commit(1, 0), Op::Upd(1, 4), Op::Commit(1, 1),
+        ],
         alphabet,
         key_opts: KeyOpts::default(),
         max_depth: depth,
